@@ -30,25 +30,25 @@ type domRec struct {
 
 // orderObs is one row of the observation: everything the real code says about version i.
 type orderObs struct {
-	I         int    `json:"i"`
-	Text      string `json:"text"`
-	Ok        bool   `json:"ok"`      // System.Parse accepted
-	Err       string `json:"err"`     // parse error text (informational)
-	Cmp       []int  `json:"cmp"`     // Compare(fresh parse i, fresh parse j); 9 when either did not parse
-	CmpShared []int  `json:"cmps"`    // same on long-lived shared *Version objects, after other calls
-	CmpStr    []int  `json:"cmpstr"`  // System.Compare(text i, text j)
-	Canon     string `json:"canon"`   // Canon(false)
-	CanonOk   bool   `json:"canonok"` // canonical string parses in the same system
-	CanonCmp  int    `json:"canoncmp"`
-	Canon2    string `json:"canon2"` // Canon of the re-parsed canonical string
-	CanonB    string `json:"canonb"` // Canon(true)
-	CanonBOk  bool   `json:"canonbok"`
-	CanonBCmp int    `json:"canonbcmp"`
-	CanonB2   string `json:"canonb2"`
-	PyCanon   string `json:"pycanon"` // pypi.CanonVersion (PyPI only)
-	PyCanonOk bool   `json:"pycanonok"`
-	PyCanonCmp int   `json:"pycanoncmp"`
-	StrSame   bool   `json:"strsame"` // String()/Canon unchanged by all the comparisons (no mutation)
+	I          int    `json:"i"`
+	Text       string `json:"text"`
+	Ok         bool   `json:"ok"`      // System.Parse accepted
+	Err        string `json:"err"`     // parse error text (informational)
+	Cmp        []int  `json:"cmp"`     // Compare(fresh parse i, fresh parse j); 9 when either did not parse
+	CmpShared  []int  `json:"cmps"`    // same on long-lived shared *Version objects, after other calls
+	CmpStr     []int  `json:"cmpstr"`  // System.Compare(text i, text j)
+	Canon      string `json:"canon"`   // Canon(false)
+	CanonOk    bool   `json:"canonok"` // canonical string parses in the same system
+	CanonCmp   int    `json:"canoncmp"`
+	Canon2     string `json:"canon2"` // Canon of the re-parsed canonical string
+	CanonB     string `json:"canonb"` // Canon(true)
+	CanonBOk   bool   `json:"canonbok"`
+	CanonBCmp  int    `json:"canonbcmp"`
+	CanonB2    string `json:"canonb2"`
+	PyCanon    string `json:"pycanon"` // pypi.CanonVersion (PyPI only)
+	PyCanonOk  bool   `json:"pycanonok"`
+	PyCanonCmp int    `json:"pycanoncmp"`
+	StrSame    bool   `json:"strsame"` // String()/Canon unchanged by all the comparisons (no mutation)
 }
 
 type sortObs struct {
